@@ -190,18 +190,21 @@ func (a *pwaligner) fillMatrix_SW() (err error) {
 	var match, fnew float64
 
 	// First row
+	// bgap: best score of a gap ending in the current border cell
+	// (extension of the best gap ending in the previous cell, or a new gap)
+	bgap := 0.0
 	for j := 0; j < l2; j++ {
 		c1 = a.seq1.CharAt(0)
 		c2 = a.seq2.CharAt(j)
 		match = a.matchScore(c1, c2, indexseq1[0], indexseq2[j])
 		fnew = 0.0
 		if j > 0 {
-			fnew = a.matrix[0][j-1]
-			if a.trace[0][j-1] == ALIGN_LEFT {
-				fnew += a.gapextend
-			} else {
-				fnew += a.gapopen
+			bgap += a.gapextend
+			fnew = a.matrix[0][j-1] + a.gapopen
+			if j == 1 || fnew > bgap {
+				bgap = fnew
 			}
+			fnew = bgap
 		}
 		if match > fnew && match > .0 {
 			a.matrix[0][j] = match
@@ -230,12 +233,12 @@ func (a *pwaligner) fillMatrix_SW() (err error) {
 
 		fnew = 0.0
 		if i > 0 {
-			fnew = a.matrix[i-1][0]
-			if a.trace[i-1][0] == ALIGN_UP {
-				fnew += a.gapextend
-			} else {
-				fnew += a.gapopen
+			bgap += a.gapextend
+			fnew = a.matrix[i-1][0] + a.gapopen
+			if i == 1 || fnew > bgap {
+				bgap = fnew
 			}
+			fnew = bgap
 		}
 		if match > fnew && match > .0 {
 			a.matrix[i][0] = match
